@@ -16,6 +16,7 @@ INVARIANT EquinoctialRoundTrip
 INVARIANT EqeMatchesCoe
 INVARIANT ArcSameOrbit
 INVARIANT ArcLagrange
+INVARIANT ArcMinimumEnergy
 INVARIANT NoOverflow
 INVARIANT Emit
 INVARIANT EmitArc
